@@ -52,16 +52,26 @@ def _roundtrip_oracle(n, dtype, layout, rng):
         big = torch.zeros(2 * n, 2 * n, dtype=dtype)
         big[::2, ::2] = x
         x = big[::2, ::2]
+    elif layout == 'extreme':
+        # values on which any arithmetic (instead of pure data movement) is visible:
+        # near the dtype's range limits, subnormals, signed zeros, infinities
+        fi = torch.finfo(dtype)
+        pool = torch.tensor([fi.max, -fi.max, 0.9 * fi.max, -0.75 * fi.max, fi.tiny, -fi.tiny, fi.tiny / 4,
+                             0.0, -0.0, float('inf'), float('-inf'), 1.0, -3.0, fi.eps], dtype=torch.float64).to(dtype)
+        idx = torch.randint(0, pool.numel(), (n, n), generator=g)
+        x = pool[idx]
+        iu = torch.triu_indices(n, n, 1)
+        x[iu[1], iu[0]] = x[iu[0], iu[1]]
     else:
         x = torch.randn(n, n, generator=g, dtype=torch.float64).to(dtype)
         x = torch.triu(x) + torch.triu(x, 1).t()
         if layout == 'transposed':
             x = x.t()
-    assert torch.equal(x, x.t())
+    ity = {2: torch.int16, 4: torch.int32, 8: torch.int64}[x.element_size()]
+    assert torch.equal(x.contiguous().view(ity), x.t().contiguous().view(ity))
     y = fill_triu(tuple(x.shape), get_triu(x))
     ok = (y.dtype == x.dtype and tuple(y.shape) == tuple(x.shape)
-          and torch.equal(y.view(-1).view(torch.uint8 if False else y.dtype), x.reshape(-1).view(x.dtype)))
-    ok = ok and torch.equal(y, x)
+          and torch.equal(y.contiguous().view(ity), x.contiguous().view(ity)))   # bit-for-bit
     return ok
 
 
@@ -159,7 +169,7 @@ def run(tier, seed, rng):
     ns = list(range(1, 33)) if tier == 'quick' else list(range(1, 65)) + [96, 128, 200, 256]
     for n in ns:
         for dt in dts:
-            for layout in ('contiguous', 'transposed', 'strided'):
+            for layout in ('contiguous', 'transposed', 'strided', 'extreme'):
                 case = {'kind': 'roundtrip', 'n': n, 'dtype': str(dt), 'layout': layout}
                 ok = _roundtrip_oracle(n, dt, layout, rng)
                 cov.add(case, n >= 2)
